@@ -20,7 +20,7 @@ impl GenerationPass for NodeDirectionPass {
                 let jump_to_node = cfg
                     .iter()
                     .find(|n| n.labels.contains(&label))
-                    .ok_or_else(|| CfgError::UnexpectedError)?;
+                    .ok_or_else(|| CfgError::LabelWithoutInstruction(label.clone()))?;
 
                 node.insert_next(Rc::clone(&jump_to_node));
                 jump_to_node.insert_prev(Rc::clone(&node));
